@@ -15,6 +15,12 @@ import (
 	"github.com/btcsuite/btcd/wire/v2"
 )
 
+func init() {
+	// netsync has no init() that disables its package logger (btcd's main package installs one): a nil
+	// logger would make the first log call dereference nil
+	netsync.DisableLog()
+}
+
 // recorder is the PeerNotifier stub: it only records what the sync manager tells the peers.
 type recorder struct {
 	mu        sync.Mutex
